@@ -67,21 +67,20 @@ let do_head isreq hex cuts =
   let d = bytes_of_hex hex in
   let len = List.length d in
   let cs = parse_cuts cuts len @ [len] in
-  let h = ref hfeed_init.hf_conn and buf = ref [] and rv = ref 8 and off = ref 0 and get = ref 0 and unk = ref false in
+  let h = ref hconn_init and buf = ref [] and rv = ref 8 and off = ref 0 and get = ref 0 in
   List.iter (fun c ->
     if !rv = 8 then begin
       let seg = if c > !off then c - !off else 0 in
       buf := !buf @ take seg (drop !off d);
       off := !off + seg;
-      let (h', r, n) =
-        if isreq then (let (((h', r), n), u) = req_parse !h !buf in (if u then unk := true); (h', r, n))
-        else (let ((h', r), n) = res_parse !h !buf in (h', r, n)) in
+      let ((h', r), rest) =
+        if isreq then req_parse c16_REQ_PARSE_KEEPS_ERR !h !buf else res_parse c16_STATUS_STRICT !h !buf in
       h := h'; rv := int_of_n r;
-      let n = int_of_nat n in
-      buf := drop n !buf; get := !get + n;
+      let n = List.length !buf - List.length rest in
+      buf := rest; get := !get + n;
       Printf.printf "p rv=%d n=%d\n" !rv n
     end) cs;
-  if !unk then print_endline "head unmodelled"
+  if (!h).h_unk then print_endline "head unmodelled"
   else begin
     let c = !h in
     let uri = if c.h_uri = [] then [n_of_int 47] else c.h_uri in
